@@ -58,7 +58,9 @@ func BuildUnixFSShardedDirectory(size int, hasher uint64, entries []dagpb.PBLink
 		name := e.Name.Must().String()
 		h.Reset()
 		h.Write([]byte(name))
-		sum := h.Sum(nil)
+		// copy the digest: some registered hashers (identity) hand out their
+		// internal buffer, which the next Reset/Write would overwrite
+		sum := append([]byte(nil), h.Sum(nil)...)
 		hamtEntries = append(hamtEntries, hamtLink{
 			sum,
 			e,
